@@ -36,6 +36,10 @@ class Rule:
         self.instances.append({"site": site, "verdict": "FAIL", "detail": msg})
         self.findings.append({"rule": self.id, "key": full, "site": site, "msg": msg, "detail": detail})
 
+    def pending(self, site, detail=""):
+        """An obligation that is not discharged; the finding itself is recorded (deduplicated) by a separate fail()."""
+        self.instances.append({"site": site, "verdict": "FAIL", "detail": detail})
+
     def note(self, site, msg):
         n = {"site": site, "msg": msg}
         if n not in self.notes:
